@@ -97,6 +97,31 @@ def miri_support(pid, tier, seed, workdir, stats):
                             "# observation %d\n# miri  : %s\n# native: %s\n" % (i, got[i][:600] if 0 <= i < len(got) else "", want[i][:600] if 0 <= i < len(want) else "") + open(prefix + ".ops").read(), True)
 
 
+def extras_oracle(pid, tier, seed, workdir, stats):
+    """Oracle-only scenarios on the real collections for instantiations outside the line protocol: two sets / maps
+    with DIFFERENTLY seeded hashers (all binary set operations, operator and assigning forms, predicates, ==, extend,
+    clone_from against BTreeSet / BTreeMap mathematics), and zero-sized maps / sets (HashMap<(),()>, HashSet<()>,
+    HashMap<(),u64>) over many capacities. No model comparison: a failing scenario is reported as it is."""
+    n = 20000 if tier == "thorough" else 600
+    if tier != "thorough" and stats.get("changed"):
+        n *= 3
+    for b in ("sse2", "portable"):
+        prefix = os.path.join(workdir, "extras-" + b)
+        sd = gen_seed(seed, 61)
+        rc, out = core.sh([core.hbv(b), "extras", str(sd), str(n), prefix], timeout=3600)
+        if rc != 0 or not os.path.exists(prefix + ".real"):
+            raise Violation("the implementation crashed or aborted in an oracle-only scenario (%s build): hbv extras %d %d" % (b, sd, n),
+                            "# " + out[-1500:].replace("\n", "\n# ") + "\n# replay: %s extras %d %d <prefix>\n" % (core.hbv(b), sd, n), True)
+        lines = open(prefix + ".real").read().split("\n")
+        stats["evaluations"] += len(lines)
+        stats["batches"].append(dict(backend=b, gen="extras (differently seeded hashers, zero-sized maps/sets; oracle only)", lines=len(lines)))
+        bad = [l for l in lines if "ORACLE-" in l]
+        if bad:
+            raise Violation("direct oracle on the implementation: %s" % (core.ORACLE_RE.search(bad[0]).group(0) if core.ORACLE_RE.search(bad[0]) else bad[0][:200]),
+                            "# %d oracle-only scenario(s) fail on the %s build\n# replay: %s extras %d %d <prefix>   (every scenario derives from the seed; see harness/src/extras.rs)\n%s\n"
+                            % (len(bad), b, core.hbv(b), sd, n, "\n".join(bad[:10])), True)
+
+
 def c16_regen(pid, tier, seed, workdir, stats):
     """T1 for C16: regenerate the compiler-derived marker/method tables from /repo (rustdoc JSON)."""
     tr = os.path.join(core.VERIF, "translate", "rustdoc2lean.py")
@@ -219,7 +244,7 @@ PROPS = {
     "C01": dict(
         module="Hb.Props.C01",
         ties=[("scen", "grow", 150, 4000), ("scen", "churn", 250, 8000), ("scen", "saturate", 120, 4000),
-              ("scen", "mixed", 300, 10000), ("scen", "entry", 200, 6000), ("scen", "entry-full", 100, 4000), ("t1", {})],
+              ("scen", "mixed", 300, 10000), ("scen", "entry", 200, 6000), ("scen", "entry-full", 100, 4000), ("t1", {}), ("custom", extras_oracle)],
         backends=["sse2", "portable"],
         design="§7 C01",
         text="Lean refinement theorems (history_refines_all_calls / history_refines): for every deterministic hash function "
@@ -244,7 +269,7 @@ PROPS = {
         more_modules=["Hb.Props.C02SetTable"],
         ties=[("scen", "mixed", 300, 10000), ("scen", "saturate", 80, 3000), ("scen", "entry-full", 120, 4000),
               ("scen", "table", 150, 5000), ("scen", "set", 100, 3000), ("scen", "iter", 100, 3000),
-              ("scen", "panic-mixed", 4, 120), ("scen", "reserve", 100, 3000), ("scen", "clone", 80, 3000), ("custom", miri_support)],
+              ("scen", "panic-mixed", 4, 120), ("scen", "reserve", 100, 3000), ("scen", "clone", 80, 3000), ("custom", miri_support), ("custom", extras_oracle)],
         backends=["sse2", "portable"],
         design="§7 C02",
         text="Proof of the index/ownership logic: in the Lean model every raw access is checked (control byte outside "
@@ -405,7 +430,7 @@ PROPS = {
     "C07": dict(
         module="Hb.Props.C07",
         more_modules=["Hb.Props.C07History"],
-        ties=[("scen", "set-pairs", 250, 8000), ("scen", "set", 200, 6000), ("scen", "panic-set-pairs", 3, 60)],
+        ties=[("scen", "set-pairs", 250, 8000), ("scen", "set", 200, 6000), ("scen", "panic-set-pairs", 3, 60), ("custom", extras_oracle)],
         backends=["sse2", "portable"],
         design="§7 C07",
         text="Lean theorems: (i) set_history_refines — every history of 27 HashSet calls on a pair of sets from (new(), new()) "
@@ -447,7 +472,7 @@ PROPS = {
     "C10": dict(
         module="Hb.Props.C10",
         ties=[("scen", "mixed", 300, 10000), ("scen", "retain-chain", 120, 4000), ("scen", "iter", 150, 4000), ("scen", "table", 150, 5000),
-              ("scen", "set", 120, 4000), ("scen", "panic-mixed", 4, 120)],
+              ("scen", "set", 120, 4000), ("scen", "panic-mixed", 4, 120), ("custom", extras_oracle)],
         backends=["sse2", "portable"],
         design="§7 C10",
         text="Lean theorems for every environment (arbitrary per-call predicate answers incl. panics) and every table state "
@@ -466,7 +491,7 @@ PROPS = {
         module="Hb.Props.C11",
         more_modules=["Hb.Props.C11History"],
         ties=[("scen", "clone", 250, 8000), ("scen", "mixed", 200, 6000), ("scen", "table", 100, 3000), ("scen", "set", 100, 3000),
-              ("scen", "panic-mixed", 4, 120)],
+              ("scen", "panic-mixed", 4, 120), ("custom", extras_oracle)],
         backends=["sse2", "portable"],
         design="§7 C11",
         text="Lean HISTORY theorems over a PAIR of maps (Hb.Props.C11History; calls: every single-map call of C01's history on either "
